@@ -9,6 +9,7 @@ CONSTANTS FltIds = {f1, f2}
  WriteDirtyThrough = TRUE
  QauKeepsDirty = TRUE
  RoCheckSetOps = FALSE
+ RemarkWhenDirty = TRUE
 INVARIANT CInv
 CONSTRAINT MCBound
 CHECK_DEADLOCK FALSE
